@@ -22,8 +22,11 @@ Definition event_eqb (a b : event) : bool :=
 Definition finish (o : outcome) : list event :=
   match o with ONormal => [EEnd] | OPanic => [EPanicTop; EEnd] | OFault => [EFault] end.
 
-Definition run_C23 (c : ctx) (stack : Z) (p : prog) : list event :=
-  let '(o, _, ev) := exec c p (init c stack) in ev ++ finish o.
+Definition run_gen (gd : Z) (c : ctx) (stack : Z) (p : prog) : list event :=
+  let '(o, _, ev) := exec gd c p (init c stack) in ev ++ finish o.
+Definition run_C23 (c : ctx) (stack : Z) (p : prog) : list event := run_gen GUARD c stack p.
+(** the code before the repair of finding red_zone_counts_guard_page (the decision counted the guard page) *)
+Definition old_run_C23 (c : ctx) (stack : Z) (p : prog) : list event := run_gen 0 c stack p.
 
 (** ---- well-formed programs: sizes with the margins under which stack positions are meaningful
     (the model places the stack pointer to within a page of the real one) *)
@@ -46,8 +49,8 @@ Definition wf_C23 (c : ctx) (stack : Z) (p : prog) : bool := (65536 <=? stack) &
 Definition ok_event (strict : bool) (c : ctx) (e : event) : bool :=
   match e with
   | EGrow d enough grew len inb room =>
-      (* grows exactly when needed: the stack really in use has less than the red zone left
-         (a plain thread that has not grown cannot tell and must grow) *)
+      (* grows exactly when needed: the stack really in use has less than the red zone of usable
+         bytes left (a plain thread that has not grown cannot tell and must grow) *)
       Bool.eqb grew (match c with CThread => (d =? 0) || negb enough | CCo => negb enough end)
       (* the reported segments are the ones in use, the callback runs inside the last one *)
       && (match c with CCo => len =? d + (if grew then 1 else 0) + 1 | CThread => true end)
@@ -68,12 +71,3 @@ Definition ok_gen (strict : bool) (c : ctx) (evs : list event) : bool :=
 
 Definition ok_weak_C23 (c : ctx) (evs : list event) : bool := ok_gen false c evs.
 Definition ok_C23 (c : ctx) (evs : list event) : bool := ok_gen true c evs.
-
-(** the defect branch: the check counts the guard page, so a callback that is run in place may
-    have up to one page less than the red zone *)
-Definition guard_window (e : event) : bool :=
-  match e with EGrow _ _ false _ _ false => true | _ => false end.
-Definition defect_C23_red_zone_counts_guard_page (c : ctx) (stack : Z) (p : prog) : bool :=
-  existsb guard_window (run_C23 c stack p).
-Definition no_defect_C23 (c : ctx) (stack : Z) (p : prog) : bool :=
-  negb (defect_C23_red_zone_counts_guard_page c stack p).
